@@ -1,23 +1,157 @@
 """sa.props -- which rules decide which property, and what is (not) decided."""
 import importlib
-import pkgutil
 import os
+import pkgutil
 
 for _m in sorted(pkgutil.iter_modules([os.path.join(os.path.dirname(__file__), "rules")])):
     importlib.import_module(f"{__package__}.rules.{_m.name}")
 
+from .runner import RULES  # noqa: E402
+
 PROPS = {}
+PENDING = {}
 
 
-def P(pid, rules, explanation, not_decided, assumptions=()):
-    PROPS[pid] = dict(rules=list(rules), explanation=explanation, not_decided=not_decided,
-                      assumptions=list(assumptions))
+def P(pid, rules, explanation, not_decided, assumptions=(), design="3"):
+    have = [r for r in rules if r in RULES]
+    missing = [r for r in rules if r not in RULES]
+    if missing:
+        PENDING[pid] = missing
+    if have:
+        PROPS[pid] = dict(rules=have, explanation=explanation, not_decided=not_decided,
+                          assumptions=list(assumptions), design=f"DESIGN.md section {design}")
 
 
-P("C20", ["EXC"],
-  "Static decision of the structural clauses of C20: (EXC) the set U of functions that may transitively "
-  "run a user callable is computed as a least fixpoint over the resolved call graph from the seven "
-  "user-callable parameters of minimize_lbfgsb; every call site of U must lie outside every try body "
-  "whose handlers do more than re-raise, every jumping finally and every non-transparent context manager, "
-  "so an exception raised by user code reaches the caller of minimize_lbfgsb unchanged on every path.",
-  "nothing numerical; re-entrancy of numpy/scipy is trusted")
+P("C01", ["IDX", "RETRY", "SIGN", "FREE"],
+  "Structural necessary conditions of C01, decided on every path of the source: (IDX) index-space typing of "
+  "get_cauchy_point shows the sorted breakpoint list is filtered and walked in its own rank space, so variables "
+  "resting on a bound with the gradient pushing outward (t = 0) cannot scramble the breakpoint order -- the "
+  "defect behind the stalls the property names; (RETRY) a failed line search aborts only after a retry from a "
+  "memory cut to its newest point; (SIGN) breakpoints / step bounds are non-negative on both branches; (FREE) "
+  "the free set is symmetric in both bounds.",
+  "convergence to a KKT point, the level reached by the projected gradient, absence of stalls in general "
+  "(floating-point trajectories over all convex objectives)", design="3/C01")
+P("C02", ["BOX", "SIGN", "FDB"],
+  "C02 is decided as a provenance property: (BOX) a must-dataflow shows that every argument of the wrapper's "
+  "fun/grad/fun_and_grad (hence of the user's objective, gradient and of approx_derivative's x0), the callback's "
+  "x and every returned x is the output of a projection onto the caller's [lb, ub] (np.clip / clip2bounds / "
+  "min-max with the very lb, ub of get_bounds) or a copy of it, with no arithmetic in between; (SIGN) step "
+  "bounds pick the bound the direction points to; (FDB) the caller's box is the box handed to the differencer.",
+  "nothing of the statement is left out, under the assumptions np.clip is exact and SciPy's approx_derivative "
+  "keeps its stencil inside `bounds`", design="3/C02")
+P("C03", ["DOWNHILL", "KEEP", "LSCAP"],
+  "The selection logic only compares objective values, so its correctness is a dataflow fact: (DOWNHILL) an "
+  "order-fact analysis of line_search proves the returned step is None or a step whose evaluated value is "
+  "strictly below the (never overwritten) start value; (KEEP) the failed-search branch does not touch "
+  "(x, fun, jac); (LSCAP) the per-iteration evaluation cap is min(.., maxfun - nfev).",
+  "monotonicity under non-determinism or rounding of the user's objective itself", design="3/C03")
+P("C04", ["EXIT", "RET", "NITB", "LSCAP", "ONCE"],
+  "C04 is a control-flow property and all its clauses are decided: (EXIT) path-sensitive exploration of "
+  "minimize_lbfgsb over (message, success flag, comparison knowledge, facts) shows every state reaching a return "
+  "carries a documented terminal message that is true of the returned state and success is False exactly for the "
+  "abnormal message; (RET) every return is a result built at the return from the internal state and the wrapper's "
+  "counters; (NITB) guard conjuncts and the single per-cycle increment bound nit, the loop holds one capped line "
+  "search plus one re-evaluation; (LSCAP) cap is min(.., maxfun - nfev); (ONCE) ftarget()/gtol() have one call "
+  "site each outside loops.",
+  "arithmetic inside the comparisons is abstracted to orderings of syntactically identical operands; NaN "
+  "projected gradients are outside the property's smooth-objective premise", design="3/C04")
+P("C05", ["COH", "CNT", "FIELDS", "SF1", "SF3", "SF5", "SF6"],
+  "Under the premise that the user's functions are deterministic, bit-equality reduces to a typestate: (COH) a "
+  "must-dataflow over minimize_lbfgsb shows each result / callback state is built where fun and jac are the "
+  "wrapper's outputs for the reported x with no rebinding or in-place write in between; (CNT) counters are "
+  "reported from and restored into the wrapper only, restores precede every evaluation; (FIELDS) writer/reader "
+  "field agreement; the wrapper's own counting / caching rules are those of C15.",
+  "bit-equality of the user's arithmetic between two calls (trusted: same call); determinism of user code",
+  design="3/C05")
+P("C06", ["ORIENT", "FIELDS", "MEM"],
+  "(ORIENT) orientation typing of the checkpoint decoder: increments accumulated from the newest pair backwards, "
+  "subtracted from the newest point, appended oldest-first, identical shape for X and G -- the inverse of the "
+  "encoder fixed by SIB; (FIELDS) every field a restart reads is written by every result and lands in the live "
+  "variable it came from; (MEM) the refill is bounded by maxcor+1 points and drops from the left, so reducing "
+  "maxcor keeps the most recent pairs.",
+  "agreement 'up to rounding' of the continued iterates with the uninterrupted run (arithmetic)", design="3/C06")
+P("C07", ["ESC", "NITOFF", "SIB", "CBUSE"],
+  "(ESC) may-alias origins of everything handed to the callback are disjoint from the targets of every in-place "
+  "write reachable afterwards; (NITOFF) counter-offset analysis: the state's nit equals the nit of a run stopped "
+  "at that iteration; (SIB) the state and the final result bind the same keywords to the same expressions; "
+  "(CBUSE) the callback's result only decides the user-callback stop and nothing else depends on the presence "
+  "of a callback.",
+  "'obtains the same continuation' (composition with C06; numerical)", design="3/C07")
+P("C08", ["IDX", "SIGN", "PIN"],
+  "(IDX) index-space typing of the breakpoint bookkeeping (the property's named defect); (SIGN) breakpoints "
+  "t >= 0 on both branches, pinned bound on the side of d, f' <= 0, f'' >= 0 at their definitions; (PIN) "
+  "variables reaching a bound are pinned by copying the bound, not by arithmetic.",
+  "first-local-minimiser characterisation, model decrease, c = W^T(x_cp - x) (floating-point linear algebra)",
+  design="3/C08")
+P("C09", ["SIGN", "ALPHA", "FREE"],
+  "The three places where the subspace step touches the box: (SIGN) truncation ratios non-negative on both "
+  "branches; (ALPHA) the truncation factor is min(1, nonneg) and multiplies the whole step once; (FREE) free set = "
+  "strictly interior variables of the Cauchy point, active set its complement, step enters only through Z.",
+  "exact subspace Newton point, model decrease, descent direction (numerical linear algebra)", design="3/C09")
+P("C10", ["MEM"],
+  "The four memory-discipline clauses of C10 are decided package-wide over every insertion / removal / rebinding "
+  "of the point and gradient histories (MEM): guarded by the strict curvature test on the inserted pair, "
+  "reject-no-touch for history and matrices, bounded FIFO (<= maxcor pairs, oldest dropped), lock-step of X and G.",
+  "equality of the compact representation with dense BFGS, positive definiteness, secant equation (matrix "
+  "identities in floating point)", design="3/C10")
+P("C11", ["BOX", "DOWNHILL", "LSBUD", "SIGN"],
+  "(BOX) the three trial-point sites of line_search are projections onto [lb, ub]; (DOWNHILL) returned step is "
+  "None or strictly downhill w.r.t. the start value (a zero step can never be returned under it); (LSBUD) one "
+  "evaluation per loop iteration, counter guard `< max_iter`, SciPy's DCSRCH._iterate calls no user function "
+  "(checked on SciPy's source); (SIGN) the maximum step is non-negative.",
+  "step in (0, stpmax] inside SciPy's DCSRCH (trusted contract)", design="3/C11")
+P("C12", ["CONST", "BIND"],
+  "(CONST) the evaluated defaults of the line-search / curvature constants equal those of Algorithm 778 at every "
+  "sibling signature; (BIND) each constant reaches its consumer in the right slot (minimize -> line_search -> "
+  "DCSRCH / dcsrch; eps_SY -> update_lbfgs_matrices / filter -> is_update_X_and_G).",
+  "iterate-by-iterate agreement with the Fortran reference, theta formula, two-loop algebra (numerical)",
+  design="3/C12")
+P("C13", ["FILT", "SEED", "FLOW", "MEM"],
+  "(FILT) must-pass-through with path-correlation pruning: from every call of the user's update function every "
+  "path to a consumer of G (matrix update, callback state, returned result) passes the curvature filter whose "
+  "result rebinds X, G; (SEED) the filter seeds its output with the newest element and only grows on the left; "
+  "(FLOW) argument / target order of both calls; (MEM) the filter's insertions are guarded by the curvature test.",
+  "bit-identity under the identity update function, equality with a restart on the new objective", design="3/C13")
+P("C14", ["OWN", "SHARED", "LOGNI", "NONDET"],
+  "The schedule quantifier is reduced to confinement: (OWN) interprocedural may-alias analysis shows no in-place "
+  "write can reach an object owned by the caller (x0, bounds, args, checkpoint.*) nor an array parameter of any "
+  "internal function except documented accumulators; (SHARED) no default-argument, class-level or module-level "
+  "object is written, no global statement, no caching decorator; (LOGNI) taint from iprint/logger reaches only "
+  "logging calls and tests of logging-only branches; (NONDET) no nondeterminism source.",
+  "re-entrancy of numpy / scipy routines themselves", design="3/C14")
+P("C15", ["SF1", "SF2", "SF3", "SF4", "SF5", "SF6", "SF7"],
+  "The wrapper is a 3-flag typestate machine over one cached point; its transition invariants are decided from "
+  "the 120 lines of ScalarFunction: exact-comparison guard dominating every accessor (SF1), fresh private key "
+  "(SF2), flags set only after the matching evaluation and reset with the key (SF3), scaling applied at return "
+  "(SF4), one increment per user call (SF5), who-may-call the raw user functions (SF6), the differencer gets the "
+  "counting wrapper, x0=self.x, f0=self.f after _update_fun (SF7).", "nothing (clause-complete under 2.1)",
+  design="3/C15")
+P("C16", ["FDB", "MODES", "BOX", "SF7"],
+  "(BOX)+(FDB) the differencer raises iff its x0 is outside `bounds`: x0 is the wrapper's cached point, which is "
+  "a projection onto the caller's box, and `bounds` is that same box for every finite-difference mode; (MODES) "
+  "each documented mode has a handler on both sides; (SF7) stencil evaluations go through the counting wrapper.",
+  "agreement of the final objective value with the exact-gradient solution to the accuracy of the scheme",
+  design="3/C16")
+P("C17", ["SCALER", "UNITS", "SF4"],
+  "(SCALER) one call site outside loops, arguments = clipped start point, unscaled gradient, lb, ub, result is the "
+  "only write of the factor outside the class; (UNITS) raw/scaled unit typing: target tested on the unscaled "
+  "value, ftol test compares like units, results and line search get scaled values; (SF4) scale applied inside "
+  "the accessors.", "equality of two complete runs (relation between trajectories)", design="3/C17")
+P("C18", ["SIB", "ESC", "MEM", "DIAG"],
+  "(SIB) every LbfgsInvHessProduct is built from (diff(X), diff(G)) in that order (or the checkpoint's pairs with "
+  "one slice); (ESC) stored points / gradients are private and never written afterwards, so pairs are bit-exact "
+  "differences of visited points; (MEM) <= maxcor pairs each with s.y > eps*y.y >= 0; (DIAG) the diagonal utility "
+  "probes e_i, reads and writes index i, over range(n), with a fresh probe per iteration.",
+  "symmetric positive definiteness of the dense operator as a numerical fact (follows mathematically from s.y > 0)",
+  design="3/C18")
+P("C19", ["AD"],
+  "(AD) source-level differentiation: both bodies of each exported (f, f_grad) pair are translated from the numpy "
+  "subset they use into closed-form sympy expressions over x0..x(n-1); d f / d x_i minus the translated gradient "
+  "must be identically zero (simplify, else exact evaluation at rational points with 60 digits) for n = 1..N.",
+  "symbolic n (fixed n <= 6 quick / 12 thorough)", design="3/C19")
+P("C20", ["EXC", "SHARED"],
+  "(EXC) the set U of functions that may transitively run a user callable is a least fixpoint over the resolved "
+  "call graph from the seven user-callable parameters; every call site of U lies outside every try body whose "
+  "handlers do more than re-raise, every jumping finally and every non-transparent context manager; (SHARED) "
+  "there is no module-, class- or default-argument state a failed run could leave modified.",
+  "nothing numerical; re-entrancy of numpy/scipy is trusted", design="3/C20")
